@@ -20,12 +20,12 @@ namespace CircBuf
 section
 variable {α β : Type}
 theorem dassert_run (c : Bool) (msg : String) (s : Sys) :
-    dassert c msg s = if c then (.ok (), s) else (.error (.assert msg), s) := by
+    dassert c msg s = if c then (.ok (), s) else (.error (.assert ""), s) := by
   cases c <;> rfl
 theorem liftE_run (e : Except Panic α) (s : Sys) :
     liftE e s = match e with | .ok a => (.ok a, s) | .error p => (.error p, s) := rfl
 theorem dassert_bind (c : Bool) (msg : String) (f : Unit → M β) (s : Sys) :
-    (dassert c msg >>= f) s = if c then f () s else (.error (.assert msg), s) := by
+    (dassert c msg >>= f) s = if c then f () s else (.error (.assert ""), s) := by
   cases c <;> rfl
 theorem liftE_bind (e : Except Panic α) (f : α → M β) (s : Sys) :
     (liftE e >>= f) s = match e with | .ok a => f a s | .error p => (.error p, s) := by
@@ -118,13 +118,17 @@ elab "ifsplit1" : tactic => withMainContext do
   let cond := c.getArg! 1
   let (s1, s2) ← g.byCases cond `hif
   let h := mkIdent `hif
-  let tac ← `(tactic| first
-    | (exfalso; omega)          -- a branch the arithmetic facts already exclude
-    | (try simp only [$h:ident, if_true, if_false, ite_true, ite_false, not_true_eq_false,
+  let simpset ← `(tactic| try simp only [$h:ident, if_true, if_false, ite_true, ite_false, not_true_eq_false,
         not_false_eq_true, true_and, and_true, false_and, and_false, true_or, or_true, false_or, or_false,
-        decide_true, decide_false, Bool.false_eq_true]))
-  let gs1 ← evalTacticAt tac s1.mvarId
-  let gs2 ← evalTacticAt tac s2.mvarId
+        decide_true, decide_false, Bool.false_eq_true])
+  let tacPos ← `(tactic| first
+    | (exfalso; omega)          -- a branch the arithmetic facts already exclude
+    | ((try simp only [if_pos $h]); $simpset))
+  let tacNeg ← `(tactic| first
+    | (exfalso; omega)
+    | ((try simp only [if_neg $h]); $simpset))
+  let gs1 ← evalTacticAt tacPos s1.mvarId
+  let gs2 ← evalTacticAt tacNeg s2.mvarId
   replaceMainGoal (gs1 ++ gs2)
 
 /-- case split on the first scrutinee of the goal that is a checked arithmetic step (`add_mod`,
@@ -239,7 +243,7 @@ re-expressed through other functions of the fragment — every definition of the
 syntax "tie2" ident "[" Lean.Parser.Tactic.simpLemma,* "]" : tactic
 macro_rules
   | `(tactic| tie2 $h [$ls,*]) => `(tactic| first
-      | (tie [$ls,*, Gen.len, Gen.is_empty, Gen.is_full, Gen.inc_start, Gen.dec_start, Gen.inc_size, Gen.dec_size, Gen.front_maybe_uninit_mut, Gen.front_maybe_uninit, Gen.back_maybe_uninit, Gen.back_maybe_uninit_mut, Gen.get_maybe_uninit, Gen.get_maybe_uninit_mut, Gen.slices_uninit_mut, Gen.as_slices, Gen.as_mut_slices, Gen.front, Gen.back, Gen.get, Gen.front_mut, Gen.back_mut, Gen.get_mut, Gen.nth_front, Gen.nth_back, Gen.push_back, Gen.push_front, Gen.try_push_back, Gen.try_push_front, Gen.pop_back, Gen.pop_front, Gen.swap, Gen.swap_remove_back, Gen.swap_remove_front, Gen.drop_range, Gen.truncate_back, Gen.truncate_front, Gen.clear, Gen.remove, Gen.make_contiguous, incStart, decStart, incSize, decSize, frontSlot, backSlot, getSlot, slicesUninitMut, asSlices, asSlicesOf, dassertE, front?, back?, get?, nthFront?, nthBack?, pushBack, pushFront, tryPushBack, tryPushFront, popBack, popFront, swap, swapRemoveBack, swapRemoveFront, dropRange, dropSegments, truncateBack, truncateFront, clear, remove, makeContiguous]; done)
-      | (tieInv $h [$ls,*, Gen.len, Gen.is_empty, Gen.is_full, Gen.inc_start, Gen.dec_start, Gen.inc_size, Gen.dec_size, Gen.front_maybe_uninit_mut, Gen.front_maybe_uninit, Gen.back_maybe_uninit, Gen.back_maybe_uninit_mut, Gen.get_maybe_uninit, Gen.get_maybe_uninit_mut, Gen.slices_uninit_mut, Gen.as_slices, Gen.as_mut_slices, Gen.front, Gen.back, Gen.get, Gen.front_mut, Gen.back_mut, Gen.get_mut, Gen.nth_front, Gen.nth_back, Gen.push_back, Gen.push_front, Gen.try_push_back, Gen.try_push_front, Gen.pop_back, Gen.pop_front, Gen.swap, Gen.swap_remove_back, Gen.swap_remove_front, Gen.drop_range, Gen.truncate_back, Gen.truncate_front, Gen.clear, Gen.remove, Gen.make_contiguous, incStart, decStart, incSize, decSize, frontSlot, backSlot, getSlot, slicesUninitMut, asSlices, asSlicesOf, dassertE, front?, back?, get?, nthFront?, nthBack?, pushBack, pushFront, tryPushBack, tryPushFront, popBack, popFront, swap, swapRemoveBack, swapRemoveFront, dropRange, dropSegments, truncateBack, truncateFront, clear, remove, makeContiguous]; done))
+      | (tieInv $h [$ls,*, Gen.len, Gen.is_empty, Gen.is_full, Gen.inc_start, Gen.dec_start, Gen.inc_size, Gen.dec_size, Gen.front_maybe_uninit_mut, Gen.front_maybe_uninit, Gen.back_maybe_uninit, Gen.back_maybe_uninit_mut, Gen.get_maybe_uninit, Gen.get_maybe_uninit_mut, Gen.slices_uninit_mut, Gen.as_slices, Gen.as_mut_slices, Gen.front, Gen.back, Gen.get, Gen.front_mut, Gen.back_mut, Gen.get_mut, Gen.nth_front, Gen.nth_back, Gen.push_back, Gen.push_front, Gen.try_push_back, Gen.try_push_front, Gen.pop_back, Gen.pop_front, Gen.swap, Gen.swap_remove_back, Gen.swap_remove_front, Gen.drop_range, Gen.truncate_back, Gen.truncate_front, Gen.clear, Gen.remove, Gen.make_contiguous, incStart, decStart, incSize, decSize, frontSlot, backSlot, getSlot, slicesUninitMut, asSlices, asSlicesOf, dassertE, front?, back?, get?, nthFront?, nthBack?, pushBack, pushFront, tryPushBack, tryPushFront, popBack, popFront, swap, swapRemoveBack, swapRemoveFront, dropRange, dropSegments, truncateBack, truncateFront, clear, remove, makeContiguous]; done)
+      | (tie [$ls,*, Gen.len, Gen.is_empty, Gen.is_full, Gen.inc_start, Gen.dec_start, Gen.inc_size, Gen.dec_size, Gen.front_maybe_uninit_mut, Gen.front_maybe_uninit, Gen.back_maybe_uninit, Gen.back_maybe_uninit_mut, Gen.get_maybe_uninit, Gen.get_maybe_uninit_mut, Gen.slices_uninit_mut, Gen.as_slices, Gen.as_mut_slices, Gen.front, Gen.back, Gen.get, Gen.front_mut, Gen.back_mut, Gen.get_mut, Gen.nth_front, Gen.nth_back, Gen.push_back, Gen.push_front, Gen.try_push_back, Gen.try_push_front, Gen.pop_back, Gen.pop_front, Gen.swap, Gen.swap_remove_back, Gen.swap_remove_front, Gen.drop_range, Gen.truncate_back, Gen.truncate_front, Gen.clear, Gen.remove, Gen.make_contiguous, incStart, decStart, incSize, decSize, frontSlot, backSlot, getSlot, slicesUninitMut, asSlices, asSlicesOf, dassertE, front?, back?, get?, nthFront?, nthBack?, pushBack, pushFront, tryPushBack, tryPushFront, popBack, popFront, swap, swapRemoveBack, swapRemoveFront, dropRange, dropSegments, truncateBack, truncateFront, clear, remove, makeContiguous]; done))
 
 end CircBuf
